@@ -49,18 +49,19 @@ theorem exists_createAccount (w : World) (t a : Addr) (hne : w.exists? t = false
 theorem createAccount_fields (w : World) (t : Addr) :
     (w.createAccount t).getNonce = w.getNonce ∧ (w.createAccount t).getBalance = w.getBalance
     ∧ (w.createAccount t).getCode = w.getCode ∧ (w.createAccount t).getState = w.getState
-    ∧ (w.createAccount t).logs = w.logs ∧ (w.createAccount t).getStake = w.getStake := by
+    ∧ (w.createAccount t).logs = w.logs ∧ (w.createAccount t).getStake = w.getStake
+    ∧ (w.createAccount t).hasSuicided = w.hasSuicided := by
   unfold World.createAccount World.touchNew
-  split <;> exact ⟨rfl, rfl, rfl, rfl, rfl, rfl⟩
+  split <;> exact ⟨rfl, rfl, rfl, rfl, rfl, rfl, rfl⟩
 
 /-- creating the (empty) account object of an address that has none does not change the live
     observation of a well-formed world, and keeps it well-formed -/
 theorem liveObs_createAccount (w : World) (t : Addr) (hwf : (obs w).WF) (hne : w.exists? t = false) :
     liveObs (w.createAccount t) = liveObs w ∧ (obs (w.createAccount t)).WF := by
-  obtain ⟨hn, hb, hc, hs, hl, hst⟩ := createAccount_fields w t
+  obtain ⟨hn, hb, hc, hs, hl, hst, hsu⟩ := createAccount_fields w t
   have hwt := hwf t (by simpa [obs] using hne)
   constructor
-  · simp only [liveObs, Obs.toLive, obs, hn, hb, hc, hs, hl, hst]
+  · simp only [liveObs, Obs.toLive, obs, hn, hb, hc, hs, hl, hst, hsu]
     congr 1
     funext a
     rw [exists_createAccount w t a hne]
